@@ -12,13 +12,17 @@ import (
 type totalReq struct {
 	Srcs     []string `json:"srcs"`
 	AsImport bool     `json:"as_import"`
+	Echo     bool     `json:"echo"` // as_import: the host returns the text for every module name it is asked for
 	Render   bool     `json:"render"`
 }
 
-func analyzeOne(src string, asImport bool, render bool) map[string]any {
+func analyzeOne(src string, asImport bool, render bool, echo bool) map[string]any {
 	req := &RunReq{Entry: "main", Modules: map[string]string{"main": src}}
 	if asImport {
 		req.Modules = map[string]string{"main": "import { f } from imp;\nfn main() { }\n", "imp": src}
+		if echo {
+			req.EchoModule = src
+		}
 	}
 	st := &hostState{req: req}
 	_, diags, syn := homescript.Analyze(
@@ -72,7 +76,7 @@ func init() {
 		}
 		res := []any{}
 		for _, s := range r.Srcs {
-			res = append(res, analyzeOne(s, r.AsImport, r.Render))
+			res = append(res, analyzeOne(s, r.AsImport, r.Render, r.Echo))
 		}
 		return res, nil
 	}
